@@ -307,8 +307,34 @@ def mutants(schema, doc, limit_per_rewrite=None):
         yield "subscription_two_roots", "via_named_fragment_" + which, True, m
 
     # ---- site rewrites
+    from tfv.gen import compatible
+
+    value_sites = [x for x in S if x["kind"] == "value"]
     for s in S:
         k = s["kind"]
+        if k == "value" and ops_for(s["where"]):
+            # a variable whose first use is fine and whose later use is not allowed
+            for s0 in value_sites:
+                if s0 is s:
+                    break
+                if s0["where"] != s["where"]:
+                    continue
+                p0, p1 = s0["path"], s["path"]
+                if p0 == p1[: len(p0)] or p1 == p0[: len(p1)]:
+                    continue
+                t0 = s0["type"]
+                if compatible(t0, s["type"]):
+                    continue
+                if s["type"][0] == "NN" and t0[0] != "NN" and s["loc_default"] and compatible(t0, s["type"][1]):
+                    continue
+                m = mk()
+                add_var(m, ops_for(s["where"]), "zzTwice", ty_str(t0))
+                set_value(m, s0["path"], ["var", "zzTwice"])
+                set_value(m, s["path"], ["var", "zzTwice"])
+                nested = s["nested"]
+                ncls = ("top" if nested == 0 else "nested%d" % min(nested, 2)) + "_" + s["owner"] + "_" + ("frag" if s["where"][0] == "frag" else "op")
+                yield "variable_not_allowed", "second_use_of_variable@" + ncls, True, m
+                break
         if k == "selset":
             pt = s["ptype"]
             for fname, cl in (("zzNope", "plain"), ("__zzNope", "dunder")):
